@@ -76,6 +76,9 @@ type c14Case struct {
 	// api: indices into Files
 	Seq  []int   `json:"seq,omitempty"`
 	Conc [][]int `json:"conc,omitempty"` // one sequence per goroutine
+
+	// kind "many"
+	Many *c14ManySpec `json:"many,omitempty"`
 }
 
 type c14Info struct {
@@ -517,6 +520,9 @@ func c14DrawFiles(rt *rapid.T, changes []*c14Change, n int) []c14File {
 var c14Dirs = []string{"", "", "", "sub/", "sub/", "sub/deep/", "other/"}
 
 func c14DrawCase(rt *rapid.T) *c14Case {
+	if rapid.IntRange(0, 24).Draw(rt, "manyFilesKind") == 0 {
+		return c14GenMany(rt)
+	}
 	cs := &c14Case{}
 	switch k := rapid.IntRange(0, 9).Draw(rt, "kind"); {
 	case k <= 2:
@@ -1842,6 +1848,8 @@ func evalC14(cs *c14Case) (sig, msg string, info c14Info) {
 	switch cs.Kind {
 	case "cli":
 		sig, msg = evalC14CLI(cs, &info)
+	case "many":
+		sig, msg = evalC14Many(cs, &info)
 	case "seq", "conc":
 		sig, msg = evalC14API(cs, &info)
 	default:
